@@ -14,6 +14,7 @@ from spacepackets.cfdp.pdu.file_directive import (
 )
 from spacepackets.cfdp.conf import PduConfig
 from spacepackets.crc import CRC16_CCITT_FUNC
+from spacepackets.exceptions import BytesTooShortError
 
 
 def get_max_seg_reqs_for_max_packet_size_and_pdu_cfg(
@@ -269,6 +270,10 @@ class NakPdu(AbstractFileDirectiveBase):
         end_of_segment_reqs = nak_pdu.packet_len
         if nak_pdu.pdu_file_directive.pdu_conf.crc_flag == CrcFlag.WITH_CRC:
             end_of_segment_reqs -= 2
+        if current_idx + 2 * struct_arg_tuple[1] > end_of_segment_reqs:
+            raise BytesTooShortError(
+                current_idx + 2 * struct_arg_tuple[1], end_of_segment_reqs
+            )
         nak_pdu.start_of_scope = struct.unpack(
             struct_arg_tuple[0],
             data[current_idx : current_idx + struct_arg_tuple[1]],
